@@ -1739,6 +1739,7 @@ func c01StrictEmptyList(ctx *Ctx, r *Report) {
 		r.Undecided("anchor lost: template %q", recStrict.define)
 		return
 	}
+	checkTemporariesDepthNamed(ctx, r, ts, recStrict)
 	txt := tmplText(tree.Root)
 	i := strings.Index(txt, "partialArray :=")
 	if i < 0 {
